@@ -410,7 +410,7 @@ func (e *Eng) execTypeSwitch(st *State, s *ast.TypeSwitchStmt) *State {
 
 // ---------- loops ----------
 
-func assignedVars(info *types.Info, n ast.Node) (map[types.Object]bool, bool) {
+func (e *Eng) assignedVars(info *types.Info, n ast.Node) (map[types.Object]bool, bool) {
 	vars := map[types.Object]bool{}
 	heap := false
 	ast.Inspect(n, func(x ast.Node) bool {
@@ -458,6 +458,10 @@ func assignedVars(info *types.Info, n ast.Node) (map[types.Object]bool, bool) {
 				}
 			}
 		case *ast.CallExpr:
+			if !e.callIsPure(x) {
+				heap = true
+			}
+		case *ast.GoStmt, *ast.DeferStmt:
 			heap = true
 		}
 		return true
@@ -493,7 +497,35 @@ func (e *Eng) ghostsAssignedIn(n ast.Node) map[types.Object]bool {
 	return out
 }
 
+// havocCounters makes the call counters of every callee called inside body unknown (but not smaller).
+func (e *Eng) havocCounters(st *State, body ast.Node) {
+	ast.Inspect(body, func(n ast.Node) bool {
+		c, ok := n.(*ast.CallExpr)
+		if !ok {
+			return true
+		}
+		key, sig, _ := calleeKey(e.info, c)
+		if sig == nil || key == "" {
+			return true
+		}
+		if e.counterHavocked == nil {
+			e.counterHavocked = map[string]bool{}
+		}
+		tag := fmt.Sprintf("%p|%s", st, key)
+		if e.counterHavocked[tag] {
+			return true
+		}
+		e.counterHavocked[tag] = true
+		old := counterOf(st, key)
+		nv := e.declare(e.fresh("cnt."+shortKey(key)), "Int")
+		e.decls = append(e.decls, fmt.Sprintf("(assert (>= %s %s))", nv, old))
+		st.counters[key] = nv
+		return true
+	})
+}
+
 func (e *Eng) havocVars(st *State, vars map[types.Object]bool, body ast.Node) {
+	e.havocCounters(st, body)
 	for g := range e.ghostsAssignedIn(body) {
 		vars[g] = true
 	}
@@ -541,7 +573,7 @@ func (e *Eng) execFor(st *State, s *ast.ForStmt) *State {
 	invs := e.loopInvs()
 	ord := e.loopOrd
 	e.checkInvs(st, invs, ord, "entry", s.Pos())
-	mod, heap := assignedVars(e.info, s)
+	mod, heap := e.assignedVars(e.info, s)
 	head := st.clone()
 	e.havocVars(head, mod, s)
 	if heap {
@@ -626,7 +658,7 @@ func (e *Eng) execRange(st *State, s *ast.RangeStmt) *State {
 	}
 	// entry: define key/value objects so invariants may mention them? (only idx & others)
 	e.checkInvs(st, invs, ord, "entry", s.Pos())
-	mod, heap := assignedVars(e.info, s.Body)
+	mod, heap := e.assignedVars(e.info, s.Body)
 	head := st.clone()
 	e.havocVars(head, mod, s.Body)
 	if heap {
